@@ -300,6 +300,9 @@ func (ex *Exec) protoMethod(recv iface, name string) *modelClosure {
 				if f.holder == nil {
 					// an ordinary field of this message: the struct cell itself (message pointer or slice of them)
 					if f.st != m.st {
+						// the real library panics ("mismatching field: got X, want Y") when a message is read with the
+						// field descriptor of another message type
+						ex.oblige("panic", "protoreflect: Get with the field descriptor of another message type ("+f.st.Obj().Name()+" on "+m.st.Obj().Name()+")", fr, pos, ex.b.False)
 						panic(ex.unsupported("protoreflect Get of a field of another message"))
 					}
 					mst := m.st.Underlying().(*types.Struct)
